@@ -20,7 +20,12 @@ from deep.grpc import convert_response
 from deepproto.proto.tracepoint.v1.tracepoint_pb2 import TracePointConfig
 
 LIMITS = oracle.Limits()
-FRIENDLY = values.FRIENDLY
+# besides the kinds whose whole rendering the statement fixes: library types and subclasses of builtins whose type name
+# and str() text are what is checked (their children are unspecified)
+PLAIN_TEXT_KINDS = ['bytes', 'bytearray', 'datetime', 'decimal', 'fraction', 'uuid', 'path', 'range', 'complex', 'enum',
+                    'namedtuple', 'namedtuple', 'strsub', 'intsub', 'dataclass', 'date', 'timedelta', 'slice',
+                    'ordereddict', 'defaultdict', 'counter', 'deque', 'listsub', 'dictsub', 'slots']
+FRIENDLY = values.FRIENDLY * 3 + PLAIN_TEXT_KINDS
 
 
 def read_chain(frame):
@@ -175,7 +180,9 @@ class C02(Prop):
                 # several computed watches whose results are short-lived objects of the same type and size
                 st.lists(st.sampled_from(['(n, 0)', '(n, 1)', '(n, 2)', 'float(n)', 'float(n + 1)', 'float(n + 2)',
                                           '[n]', '[n + 1]', 'str(n) + "a"', 'str(n) + "b"', '{"k": n}', '{"k": n + 1}']),
-                         min_size=2, max_size=5, unique=True)),
+                         min_size=2, max_size=5, unique=True),
+                # names that are module globals and, in some programs, also locals of the paused function
+                st.lists(st.sampled_from(['G_INT', 'g_helper', 'G_LIST', 'n']), min_size=1, max_size=3, unique=True)),
             'route': st.sampled_from(['triggers', 'response']),
             'cfg': fd({
                 'APP_ROOT': st.sampled_from(['/app', '/app/pkg', '/nowhere', '/app/pkg/mod']),
